@@ -315,7 +315,26 @@ def run_unit(unit):
                         d.advance(0.01)
                         d.settle()
                 steps = sum(1 for e in d.rec.log if e[0] == "A" and e[1] == ("mk:tick" if how == "timer" else "mk:step"))
-                want = R if how == "timer" else R * L
+
+                def natural(batches):
+                    """Reference run of the REPEAT machine without any bound: FIFO queue, GO resets k and raises HOP, HOP
+                    bumps k, counts a step and raises HOP while k < L.  (In a batch the chains share k and interleave.)"""
+                    n, k = 0, 0
+                    for batch_ in batches:
+                        q = list(batch_)
+                        while q:
+                            ev = q.pop(0)
+                            if ev == "GO":
+                                k = 0
+                                q.append("HOP")
+                            else:
+                                k += 1
+                                n += 1
+                                if k < L:
+                                    q.append("HOP")
+                    return n
+
+                want = R if how == "timer" else natural([["GO"] * R] if how == "send_events_batch" else [["GO"]] * R)
                 cut = [m for m in core.LOG.errors() if "xceeded" in m]
                 if steps != want or cut:
                     flag("short-chains-add-up-to-a-cut", f"{R} chains of {L if how != 'timer' else 1} self-raised event(s) each via {how}, maxIterations {M}: {steps} steps of {want}; log {cut[:1]}", engine)
